@@ -25,6 +25,15 @@ def load_prop(pid):
     return importlib.import_module(f"harness.props.{pid.lower()}")
 
 
+def clean(o):
+    """drop the harness's private '_' keys before a case is written out"""
+    if isinstance(o, dict):
+        return {k: clean(v) for k, v in o.items() if not str(k).startswith("_")}
+    if isinstance(o, list):
+        return [clean(v) for v in o]
+    return o
+
+
 def case_key(case):
     return json.dumps(case, sort_keys=True, default=str)
 
@@ -219,7 +228,7 @@ def run(pid, tier, seed, args, t0):
     violation = None
     if new_fails:
         f = min(new_fails, key=lambda r: len(case_key(r["case"])))
-        violation = {"kind": "failing-input", "case": f["case"], "observed": f["impl"], "model": f["model"],
+        violation = {"kind": "failing-input", "case": clean(f["case"]), "observed": clean(f["impl"]), "model": f["model"],
                      "violation": f["violation"], "broken": broken}
     elif broken:
         # search the implementation for a failing input with the oracle alone
@@ -241,11 +250,11 @@ def run(pid, tier, seed, args, t0):
             if found or tried >= budget:
                 break
         if found:
-            violation = {"kind": "failing-input", "case": found["case"], "observed": found["impl"],
+            violation = {"kind": "failing-input", "case": clean(found["case"]), "observed": clean(found["impl"]),
                          "violation": found["violation"], "broken": broken}
         else:
             violation = {"kind": "no-failing-input-found", "broken": broken,
-                         "first_disagreement": (dis_new[0] if dis_new else None),
+                         "first_disagreement": (clean(dis_new[0]) if dis_new else None),
                          "searched": tried, "build_log_tail": build_log[-3000:] if not build_ok else ""}
 
     # --- 8. evidence -----------------------------------------------------------------------------------
@@ -254,7 +263,10 @@ def run(pid, tier, seed, args, t0):
         k = prop.nontrivial_key(r["case"], r["impl"], r["model"])
         if k is not None:
             keys.add(json.dumps(k, sort_keys=True, default=str))
-    samples = [{"case": r["case"], "impl": r["impl"], "model": r["model"]} for r in records[:3]]
+    def brief(v, n=1500):
+        t = json.dumps(clean(v), default=str)
+        return clean(v) if len(t) <= n else t[:n] + "...(truncated)"
+    samples = [{"case": brief(r["case"]), "impl": brief(r["impl"]), "model": brief(r["model"])} for r in records[:3]]
     samples += [{"theorem": n} for (_, n) in theorems[:5]]
     ev = {
         "property_id": pid,
